@@ -623,6 +623,20 @@ def _getattr(o, name, *default):
         raise ModelFault(f"object has no attribute '{name}'")
 
 
+class _NullCM:
+    """context manager that does nothing (contextlib.suppress of an
+    exception the model never raises, nullcontext, closing)"""
+
+    def __init__(self, value=None):
+        self.value = value
+
+    def __enter__(self):
+        return self.value
+
+    def __exit__(self, *a):
+        return False
+
+
 def _namedtuple(typename, field_names, *, rename=False, defaults=None,
                 module=None):
     """named tuples are plain tuples with named fields: attribute access is
@@ -648,6 +662,11 @@ BUILTINS.update({
     "ImportError": ImportError, "AttributeError": AttributeError,
     "UnicodeDecodeError": UnicodeDecodeError,
     "PermissionError": PermissionError, "LookupError": LookupError,
+    "KeyboardInterrupt": KeyboardInterrupt, "SystemExit": SystemExit,
+    "GeneratorExit": GeneratorExit, "TimeoutError": TimeoutError,
+    "EOFError": EOFError, "MemoryError": MemoryError,
+    "RecursionError": RecursionError, "UnicodeError": UnicodeError,
+    "ConnectionError": ConnectionError, "BufferError": BufferError,
     "ArithmeticError": ArithmeticError, "FloatingPointError":
         FloatingPointError,
 })
@@ -655,6 +674,9 @@ BUILTINS.update({
 # standard-library names an interpreted module may use for plain data
 BUILTINS.update({
     "namedtuple": _namedtuple,
+    "contextlib": NS("contextlib", suppress=lambda *a: _NullCM(),
+                     nullcontext=lambda v=None: _NullCM(v),
+                     closing=lambda v: _NullCM(v)),
     "functools": NS("functools", partial=functools.partial,
                     reduce=functools.reduce),
     "partial": functools.partial,
